@@ -120,7 +120,7 @@ let run_tab (op : string) (toks : string list) : string * string =
   | "move" ->
     let f, e, t = (match args with f :: e :: t :: _ -> arg_i f, arg_i e, arg_i t | _ -> failwith "move args") in
     im (fun () -> "") (move_im f e t (if same then T1 else T2)),
-    (if move_ok same f e t then
+    (if move_ok f e t then
        (if same then sres "ok:" (move_spec m1 m1 f e t) m2 else sres "ok:" m1 (move_spec m1 m2 f e t))
      else sres "err:" m1 m2)
   | "unpack" ->
